@@ -351,6 +351,22 @@ pub struct MdA {
 pub struct MdB {
     pub b: String,
 }
+/// a lenient metadata type: the field of `MdA`, unknown keys are ignored (no deny_unknown_fields)
+#[derive(Serialize, Deserialize, Clone, Debug, PartialEq, Eq)]
+pub struct MdL {
+    pub a: String,
+}
+impl MdType for MdL {
+    fn make(u: &Universe, md: &AMd) -> Self {
+        assert_eq!(md.kind, "A");
+        MdL { a: u.md_payload(&md.v) }
+    }
+    fn project(&self, u: &Universe) -> AMd {
+        AMd { kind: "A".into(), v: u.md_token_of_payload(&self.a) }
+    }
+}
+pub const EXTRA_KEY: &str = "zz-extra";
+pub const EXTRA_VALUE: &str = "a key no metadata type of this buildpack declares";
 impl MdType for MdA {
     fn make(u: &Universe, md: &AMd) -> Self {
         assert_eq!(md.kind, "A");
@@ -374,10 +390,16 @@ fn md_key(kind: &str) -> &'static str {
         "A" => "a",
         "B" => "b",
         "X" => "x",
+        "AX" => "a",
         o => panic!("md kind {o}"),
     }
 }
 pub fn project_table(u: &Universe, t: &toml::Table) -> AMd {
+    if t.len() == 2 && t.get(EXTRA_KEY).and_then(|x| x.as_str()) == Some(EXTRA_VALUE) {
+        if let Some(toml::Value::String(s)) = t.get("a") {
+            return AMd { kind: "AX".into(), v: u.md_token_of_payload(s) };
+        }
+    }
     if t.len() == 1 {
         for (kind, key) in [("A", "a"), ("B", "b"), ("X", "x")] {
             if let Some(toml::Value::String(s)) = t.get(key) {
@@ -394,6 +416,9 @@ impl MdType for GenericMetadata {
         }
         let mut t = toml::Table::new();
         t.insert(md_key(&md.kind).into(), toml::Value::String(u.md_payload(&md.v)));
+        if md.kind == "AX" {
+            t.insert(EXTRA_KEY.into(), toml::Value::String(EXTRA_VALUE.into()));
+        }
         Some(t)
     }
     fn project(&self, u: &Universe) -> AMd {
@@ -438,6 +463,9 @@ pub fn render_toml(u: &Universe, t: &AToml) -> Option<String> {
             }
             if t.md.kind != "none" {
                 s.push_str(&format!("[metadata]\n{} = {}\n", md_key(&t.md.kind), toml_escape(&u.md_payload(&t.md.v))));
+                if t.md.kind == "AX" {
+                    s.push_str(&format!("{} = {}\n", toml_escape(EXTRA_KEY), toml_escape(EXTRA_VALUE)));
+                }
             }
             Some(s)
         }
@@ -983,6 +1011,7 @@ pub fn execute(u: &Universe, ctx: &BuildContext<TB>, o: &AObs, lref: Option<&Any
             let (r, lr) = match o.t.as_str() {
                 "A" => run_cached::<MdA>(u, ctx, &name, o, &log),
                 "B" => run_cached::<MdB>(u, ctx, &name, o, &log),
+                "L" => run_cached::<MdL>(u, ctx, &name, o, &log),
                 "G" => run_cached::<GenericMetadata>(u, ctx, &name, o, &log),
                 t => panic!("metadata type {t}"),
             };
@@ -997,6 +1026,7 @@ pub fn execute(u: &Universe, ctx: &BuildContext<TB>, o: &AObs, lref: Option<&Any
         "handle_layer" => match o.t.as_str() {
             "A" => run_trait::<MdA>(u, ctx, &name, o, &log),
             "B" => run_trait::<MdB>(u, ctx, &name, o, &log),
+            "L" => run_trait::<MdL>(u, ctx, &name, o, &log),
             "G" => run_trait::<GenericMetadata>(u, ctx, &name, o, &log),
             t => panic!("metadata type {t}"),
         },
